@@ -26,6 +26,7 @@ class C07(Pipeline):
         "gas estimates are submitted by every validator and elected (first half of the end-blocker) right after a message appears: relayers never relay a message without an elected estimate / fees",
         "the relayer publishes public access data naming the valset that is live on the chain (or error data) before the first evidence; 'exact encoding' is judged against that valset",
         "the reference encoding is computed by the driver from the stored message with the compass ABI shipped in x/evm/keeper/testdata/sample-abi.json; remote transactions are signed by one fixed key, so a transaction is identified by (call data, nonce)",
+        "which pieces of evidence are identical is decided on the bytes the validators submitted (sha256 of the stored proof), never with the code's own BytesToHash; receipts of one transaction vary independently in status and in the rest of the receipt (gas used), the logs are the same in every variant",
         "four validators with shares 3:1:1:1 in the current snapshot ({1,2} holds exactly 2/3, {2,3,4} is one short); blocks are 60 s apart, which keeps the relayer pick stable",
         "one user-contract deployment per history (two deployments of one contract created in the same block are indistinguishable for finishUserSmartContractDeployment)",
     ]
@@ -61,7 +62,9 @@ class C07(Pipeline):
         share = {1: 3, 2: 1, 3: 1, 4: 1}
         st = {"accepted": {}, "rejected": {}, "error_proof": {}, "no_quorum_or_split": 0, "won_with_exactly_two_thirds": 0,
               "one_short": 0, "corruptions_offered": {}, "prefix_lengths_accepted": {},
-              "note_metrix_success_recorded_for_rejected_proof": 0}
+              "note_metrix_success_recorded_for_rejected_proof": 0,
+              "same_tx_reported_with_different_receipts": 0, "winner_with_deviating_evidence_submitted_first": 0,
+              "winner_with_deviating_evidence_submitted_last": 0}
         prev = None
         for e in events:
             if e["act"] == "Evidence" and e["res"] == "ok" and e["args"]["t"] == "tx":
@@ -87,6 +90,19 @@ class C07(Pipeline):
                     for g in q["ev"]:
                         groups.setdefault(g["eid"], []).append(g)
                     win = [g for g in groups.values() if 3 * sum(share[x["v"]] for x in g) >= 12]
+                    byh = {}
+                    for g in q["ev"]:
+                        if g["t"] == "tx":
+                            byh.setdefault(g["hid"], set()).add(g["eid"])
+                    if any(len(x) > 1 for x in byh.values()):
+                        st["same_tx_reported_with_different_receipts"] += 1
+                    if win and len(groups) > 1:
+                        first = min(q["ev"], key=lambda g: g["ord"])
+                        last = max(q["ev"], key=lambda g: g["ord"])
+                        if first["eid"] != win[0][0]["eid"]:
+                            st["winner_with_deviating_evidence_submitted_first"] += 1
+                        if last["eid"] != win[0][0]["eid"]:
+                            st["winner_with_deviating_evidence_submitted_last"] += 1
                     if win and sum(share[x["v"]] for x in win[0]) == 4:
                         st["won_with_exactly_two_thirds"] += 1
                     k = q["kind"]
